@@ -176,7 +176,8 @@ Inductive op :=
 | OApply (st : state) (v : visit) (failF : list fkey) (failB : list bkey)
          (trace : list xwrite) (err : bool) (fe_after : femap) (be_after : bemap) (mg : mgobs)
          (tabs : list (list bval * list bval)) (mg_after : bemap)
-| ORestart.
+| ORestart
+| OSetNext (n : N).   (* the id counter is put at n (where a long-running Felix would have it) *)
 
 (* k_mgcheck = false: the maglev mid-update part of the oracle is off (the driver emits such a copy of a history in
    which it saw that part fail, so that the rest of the oracle is still applied to it) *)
@@ -195,6 +196,7 @@ Fixpoint model_agrees (cfg : config) (sy : syncer) (d : dp) (ops : list op) : bo
   match ops with
   | [] => true
   | ORestart :: t => model_agrees cfg new_syncer d t
+  | OSetNext n :: t => model_agrees cfg (SY n (sy_prev sy) (sy_synced sy)) d t
   | OApply st v fF fB tr err fe be _ _ _ :: t =>
       match exec_apply cfg sy d st v fF fB (core_writes tr) with
       | None => false
@@ -210,6 +212,7 @@ Fixpoint oracle (mgcheck : bool) (npips : list N) (lut : N) (d : dp3) (ops : lis
   match ops with
   | [] => true
   | ORestart :: t => oracle mgcheck npips lut d t
+  | OSetNext _ :: t => oracle mgcheck npips lut d t
   | OApply st _ _ _ tr err fe be mg _ mga :: t =>
       let d' := do_xwrites d tr in
       replay3_ok mgcheck lut d tr
